@@ -63,6 +63,30 @@ func c13Sut(arg string) int {
 	serve := func(n int, sc *uasc.SecureChannel, conn *uacp.Conn, ctx context.Context, client bool) {
 		st := c13Stat{Conn: n, NegRecv: conn.ReceiveBufSize(), NegChunks: conn.MaxChunkCount()}
 		var ms runtime.MemStats
+		// Receive only returns for complete messages and errors: the buffers are sampled concurrently as well
+		var smu sync.Mutex
+		stopSampler := make(chan struct{})
+		go func() {
+			t := time.NewTicker(500 * time.Microsecond)
+			defer t.Stop()
+			for {
+				select {
+				case <-stopSampler:
+					return
+				case <-t.C:
+					ids, _, bytes := sc.VerifBufferedChunks()
+					smu.Lock()
+					if bytes > st.MaxBytes {
+						st.MaxBytes = bytes
+					}
+					if ids > st.MaxReqIDs {
+						st.MaxReqIDs = ids
+					}
+					smu.Unlock()
+				}
+			}
+		}()
+		defer func() { close(stopSampler) }()
 		for {
 			runtime.ReadMemStats(&ms)
 			before := ms.TotalAlloc
@@ -72,12 +96,14 @@ func c13Sut(arg string) int {
 				st.MaxAlloc = d
 			}
 			ids, _, bytes := sc.VerifBufferedChunks()
+			smu.Lock()
 			if bytes > st.MaxBytes {
 				st.MaxBytes = bytes
 			}
 			if ids > st.MaxReqIDs {
 				st.MaxReqIDs = ids
 			}
+			smu.Unlock()
 			if msg.Err != nil {
 				st.Errors++
 				st.LastErr = msg.Err.Error()
@@ -88,7 +114,9 @@ func c13Sut(arg string) int {
 			}
 			st.Delivered++
 		}
+		smu.Lock()
 		b, _ := json.Marshal(st)
+		smu.Unlock()
 		say("END %s", b)
 	}
 	if a.Side == "server-channel" {
@@ -374,6 +402,37 @@ func c13ServerStreams(reg *gen.Registry, url string, quick bool) []c13Stream {
 			note(fmt.Sprintf("%d intermediate chunks of %d bytes sent, none completed", n, len(part)))
 		})
 	}
+	add("flood-of-intermediate-chunks-after-400-complete-messages", func(conn net.Conn, r *rand.Rand, note func(string)) {
+		ch, err := c13OpenNone(conn, url)
+		if err != nil {
+			note("open failed: " + err.Error())
+			return
+		}
+		body, _ := refpeer.EncodeBody(&ua.GetEndpointsRequest{RequestHeader: &ua.RequestHeader{AuthenticationToken: ua.NewTwoByteNodeID(0), AdditionalHeader: ua.NewExtensionObject(nil)}, EndpointURL: url})
+		for k := 0; k < 400; k++ {
+			raw, _ := ch.SealChunk(nil, "MSG", 'F', ch.TakeSeq(), uint32(100+k), body)
+			if _, err := conn.Write(raw); err != nil {
+				return
+			}
+			if k%4 == 3 { // some of them in two chunks
+				h := len(body) / 2
+				raw, _ = ch.SealChunk(nil, "MSG", 'C', ch.TakeSeq(), uint32(5000+k), body[:h])
+				conn.Write(raw)
+				raw, _ = ch.SealChunk(nil, "MSG", 'F', ch.TakeSeq(), uint32(5000+k), body[h:])
+				conn.Write(raw)
+			}
+		}
+		part := make([]byte, int(ch.PeerRecvBuf)-100)
+		conn.SetWriteDeadline(time.Now().Add(20 * time.Second))
+		for k := 0; k < 1500; k++ {
+			raw, _ := ch.SealChunk(nil, "MSG", 'C', ch.TakeSeq(), uint32(100000+k), part)
+			if _, err := conn.Write(raw); err != nil {
+				note(fmt.Sprintf("write failed after %d chunks: %v", k, err))
+				return
+			}
+		}
+		note("400 complete messages, then 1500 intermediate chunks under new request ids")
+	})
 	add("one-request-id-with-more-chunks-than-negotiated", func(conn net.Conn, r *rand.Rand, note func(string)) {
 		ch, err := c13OpenNone(conn, url)
 		if err != nil {
